@@ -32,7 +32,7 @@ NOTES = {
 }
 
 SECTION17 = ["---------------------------------------------------------------------------------------------", "",
- "## 17. Session 3: the input containers inside the model, a third round of seeded changes", "",
+ "## 17. Session 3: the input containers inside the model, constants regenerated from the source, two more rounds of seeded changes", "",
  "### 17.1 Container layer (more of the system inside the model)", "",
  "Until session 2 the model of `sfs create` started at *genotype results per column*: the bytes of the input were turned into that notation by the harness, and the container codecs appeared in C12's theorems as parameters with a round-trip hypothesis. Now the whole path from input bytes to stdout is an executable Lean function, `createFromBytesC : CreateArgs → bytes → Option CreateOut` (`Model/Container.lean`):", "",
  "| model file | what it models | lines |", "|---|---|---|",
@@ -58,7 +58,14 @@ SECTION17 = ["------------------------------------------------------------------
  "* small written arrays (C15-C: a block writer that repeats stale values beyond 8192) → 8192 / 8193 / 9261 / 10201 / 16385-value spectra in C15 and C07; aligned-header shapes in C07 (C07-C);",
  "* sampled triploid strings (C08-C: all-missing `././.` taken for missing) → the quick tier covers every triploid string over {., 0, 1};",
  "* degenerate shapes with at least one axis (C17-C: 0-d npy accepted, `Display for Shape` indexes `[0]`) → `()`, `(,)`, `<>` headers x every statistic.", "",
- "`tools/sweep_seeds.sh` re-applies all 69 stored changes to a scratch copy of the repository and runs the owning property's quick check; it is a development tool (run through `vp run --with-repo`), not a registered check.", ""]
+ "### 17.4 Fourth round (19 more, asked for history / state / fault / environment dependence and cooperating edits)", "",
+ "7 of 19 were caught by the owning property's quick check as it stood (C01, C02, C03, C04, C05, C10, C19), 4 only by a neighbouring property's check (C06 by C08, C07 by C18 / C15, C11 by C02, C15 by C18), 8 by none (C08, C09, C12, C13, C14, C16, C17, C18). What the misses had in common, and what was added:", "",
+ "* *exact sizes*: a memo table one entry short at 128 alleles (C17-D), a block reader that stops at a multiple of 4096 values (C16-E) → size *sweeps* instead of samples: every axis length 2..260 (thorough 600) in C17 and C03, every cohort size 1..140 in C02, damaged files of 4096 k values in C16;",
+ "* *history inside one process or object*: a thread-local log-factorial table that is regrown wrongly (C11-D), a cached total that survives `IndexMut` (C14-D), a BCF scratch vector that keeps stale alleles after a narrower record (C08-D) → cohort streams with rising and falling totals in C11, the in-place edit history `monoip` in C14, all-haploid / all-triploid records after diploid ones in C08;",
+ "* *environment*: a samples file that must be a regular file (C09-D), `BrokenPipe` mapped to success (C18-F), stdin delivered in pieces (C07-D) → named-pipe samples files, seven rotating error kinds plus closed-pipe runs, split-stdin readers;",
+ "* *format corners*: GT's BCF dictionary index ≥ 128 (C12-D), two-digit allele indices in text VCF (C06-D), inputs already on frequency scale (C13-F) → wide headers (126 / 197 / 266 INFO definitions), two-digit multiallelic spellings, frequency-scale inputs.", "",
+ "A development pitfall found on the way (not part of any registered command): trying a seeded change on a scratch copy of the repository while sharing cargo's target directory with /repo leaves the *patched* `sfs` binary in place when switching back — cargo does not re-link an up-to-date binary — so a following run on the unchanged tree reported the previous seed's violation. Scratch sweeps now build into their own target directories and never write evidence (`SFS_REPO`, `lib/runner.py`).", "",
+ "`tools/sweep_seeds.sh` re-applies all 88 stored changes to a scratch copy of the repository and runs the owning property's quick check; it is a development tool (run through `vp run --with-repo`), not a registered check.", ""]
 
 def main():
     path = os.path.join(VERIF, "DESIGN.md")
